@@ -6,6 +6,7 @@ from hv import hx
 RULE = ('applications with 0..4 host sub-apps x 0..6 routes each (+ default), patterns from literals/prefix/suffix/infix/'
         'multiple and adjacent */overlapping/shadowing; Host absent/exact/wildcard-matching/with port/non-matching; paths '
         'matching several/one/no route; non-trivial = at least two candidate routes or hosts match')
+NEEDS_TOKIO = True
 ASSUMPTIONS = ['WebSocket dispatch (call_websocket_handler) has the same shape over websocket_routes; it is exercised end to end '
                'in the C11/C01 loopback scenarios, not through the hook']
 
@@ -72,6 +73,7 @@ def run(ctx):
         if b != a:
             ctx.report({'line': line}, 'impl=' + b, 'rule=' + want, cls='route-mismatch', failing_input=(b != want),
                        what='get_handler selects %s but the routing rule gives %s' % (b, want))
+    ctx.tokio_twin(lines[::2], m[::2], 'route-mismatch-tokio', what='tokio get_handler differs from the routing rule')
     for k in (0, len(lines) // 2):
         if k < len(lines):
             ctx.sample({'case': lines[k], 'decision': im[k]})
